@@ -22,7 +22,24 @@ pub const COMMANDS: [&str; 14] = [
     "",
 ];
 
+/// A long string of mixed 1-, 2-, 3- and 4-byte characters whose character boundaries do not
+/// line up with round byte offsets (256, 1024, ...).
+pub fn long_mixed_string(ctx: &mut Ctx) -> String {
+    let target = *ctx.ch.pick("op.arg.strlen", &[255usize, 256, 257, 300, 1023, 1025, 4097]);
+    let shift = ctx.ch.draw("op.arg.strshift", 4) as usize;
+    let mut out = "a".repeat(shift);
+    let units = ["\u{e9}", "\u{65e5}", "\u{1F600}", "z\u{4e16}"];
+    let unit = units[ctx.ch.draw("op.arg.strunit", units.len() as u64) as usize];
+    while out.len() < target {
+        out.push_str(unit);
+    }
+    out
+}
+
 pub fn draw_string(ctx: &mut Ctx) -> String {
+    if ctx.ch.chance("op.arg.strlong", 1, 12) {
+        return long_mixed_string(ctx);
+    }
     match ctx.ch.weighted("op.arg.strk", &[4, 2, 2, 1, 1]) {
         0 => ctx.ch.pick("op.arg.str", &["live", "app", "key", "record", "append", "NetStream.Play.Start", "NetStream.Publish.Start", "code", "level"]).to_string(),
         1 => ctx.ch.pick("op.arg.str", &COMMANDS).to_string(),
@@ -101,8 +118,33 @@ fn deep_value(ctx: &mut Ctx) -> AV {
 /// AMF0 body bytes: value lists of every shape, incl. short command lists, wrong types in every
 /// argument position, huge declared counts / lengths, truncations.
 pub fn draw_amf0_body(ctx: &mut Ctx) -> Vec<u8> {
-    let shape = ctx.ch.weighted("op.arg.bodyk", &[4, 4, 2, 2, 2, 1, 1]);
+    let shape = ctx.ch.weighted("op.arg.bodyk", &[4, 4, 2, 2, 2, 1, 1, 1]);
     let mut body = match shape {
+        7 => {
+            // amplification: hundreds of tiny containers that each declare a large element
+            // count (or are simply empty), optionally behind a command / data-frame prefix
+            ctx.probe("hostile.many_overdeclaring_containers");
+            let n = ctx.ch.range("op.arg.count", 100, 3000) as usize;
+            let count = *ctx.ch.pick("op.arg.declared", &[1024u32, 1000, 65535, 0x00FF_FFFF, 0xFFFF_FFFF, 16]);
+            let mut b = match ctx.ch.draw("op.arg.prefix", 3) {
+                0 => Vec::new(),
+                1 => amf0::enc(&[AV::s("onStatus"), AV::Num(0.0), AV::Null]),
+                _ => amf0::enc(&[AV::s("@setDataFrame"), AV::s("onMetaData")]),
+            };
+            let ecma = ctx.ch.chance("op.arg.ecma", 1, 4);
+            for _ in 0..n {
+                if ecma {
+                    b.push(8);
+                    b.extend_from_slice(&count.to_be_bytes());
+                    b.extend_from_slice(&[0, 0, 9]);
+                } else {
+                    b.push(10);
+                    b.extend_from_slice(&count.to_be_bytes());
+                    b.push(9);
+                }
+            }
+            return b;
+        }
         0 => {
             // command-shaped with a random prefix kept: 0, 1, 2, 3+ values
             let name = ctx.ch.pick("op.arg.cmd", &COMMANDS).to_string();
